@@ -23,7 +23,7 @@ import (
 var dPoints = []string{
 	"m2o.set.claimed", "m2o.set.loaded", "m2o.set.collision", "m2o.set.casfailed", "m2o.set.stored",
 	"m2o.next.enter", "m2o.next.swapped", "m2o.next.swapped.nil", "m2o.next.alerted",
-	"waiter.cancel.woken", "waiter.cancel.broadcast", "waiter.set.beforebroadcast", "waiter.set.afterbroadcast",
+	"waiter.set.beforebroadcast", "waiter.set.afterbroadcast",
 	"waiter.next.done", "waiter.next.beforewait", "waiter.next.afterwait",
 	"poller.next.done", "poller.next.empty",
 	"diode.write.copied", "diode.poll.got", "diode.poll.written", "diode.close.cancelled", "diode.close.joined",
@@ -70,6 +70,7 @@ type dPause struct {
 	K         int
 	ReleasePt []int // any of these points (by any goroutine) releases
 	OtherRole bool  // release on any event of a different role
+	UntilJoin bool  // released by the engine once every producer call has returned (the point is held across whole laps)
 	Timeout   time.Duration
 	seen      int
 	armed     chan struct{} // closed when the pause is entered
@@ -91,6 +92,11 @@ type dCfg struct {
 	CloseEarly bool
 	FaultW     int           // wrapped writer misbehaves: 1 = some messages are always refused with (0, error), 2 = some messages are always only half accepted
 	Hookless   bool          // no hook events are recorded (race-detector runs: the hook's own mutex would add happens-before edges)
+	NilAlerter bool          // NewWriter gets a nil alerter (lapping must still work)
+	ReAlerter  bool          // the alerter logs through the same diode writer (the documented usage pattern), first 4 alerts
+	LateWrites bool          // every producer makes one more Write while Close runs and one after Close returned
+	CloseTwice int           // 1: Close is called a second time after it returned; 2: two goroutines call Close concurrently
+	Procs      int           // GOMAXPROCS for this run (0 = leave)
 	Script     func(r *dRun) // directed scenario driver (replaces the default producers)
 	Name       string
 }
@@ -100,7 +106,7 @@ func (c *dCfg) String() string {
 	if c.Poll > 0 {
 		mode = fmt.Sprintf("poller(%v)", c.Poll)
 	}
-	return fmt.Sprintf("{%s P=%d W=%d size=%d %s block=%v slow=%d paced=%v pad=%d closeEarly=%v hookless=%v faultW=%d}", c.Name, c.P, c.W, c.Size, mode, c.Block, c.SlowW, c.Paced, c.Pad, c.CloseEarly, c.Hookless, c.FaultW)
+	return fmt.Sprintf("{%s P=%d W=%d size=%d %s block=%v slow=%d paced=%v pad=%d closeEarly=%v hookless=%v faultW=%d nilAlerter=%v reAlerter=%v lateWrites=%v closeTwice=%d procs=%d}", c.Name, c.P, c.W, c.Size, mode, c.Block, c.SlowW, c.Paced, c.Pad, c.CloseEarly, c.Hookless, c.FaultW, c.NilAlerter, c.ReAlerter, c.LateWrites, c.CloseTwice, c.Procs)
 }
 
 type dWrite struct {
@@ -119,6 +125,7 @@ type dDelivery struct {
 	Len         int
 	Changed     bool
 	Inflight    int32
+	AfterWClose bool // the wrapped writer's Close had already been called
 }
 
 // dRun is one execution and everything observed in it.
@@ -158,6 +165,7 @@ type dRun struct {
 	spinN         map[int64]int
 	StallState    string // "", "parked", "polling", "inconclusive"
 	StallDump     string
+	MidRunStall   bool // the stall was observed in the middle of a paced single-producer run
 	Quiesced      bool
 	ProducersHung string
 	CloseHung     string
@@ -167,6 +175,15 @@ type dRun struct {
 	maxClaimed    int64 // -1 = none
 	nClaimed      int64
 	cancelBcast   int32
+	attempts      map[int64]int // per producer goroutine: loaded/collision/casfailed events since its last diode.write.copied
+	cancelSeen    bool
+	entersAfterCancel int64
+	consumerDone  bool
+	IgnoresCancel string // set when the consumer keeps calling TryNext long after cancellation
+	WritePanic    string
+	wrappedClosed int64 // clock value of the wrapped writer's Close (0 = not called)
+	wrappedCloses int32
+	closeRets     int32
 }
 
 var curRun atomic.Value // *dRun
@@ -234,10 +251,35 @@ func (r *dRun) at(point string, arg uint64) {
 		}
 	case "m2o.next.enter":
 		r.readIndex = arg
+		if r.cancelSeen && !r.consumerDone {
+			r.entersAfterCancel++
+			// after cancellation a consumer drains what is left (at most one TryNext per claimed position,
+			// plus the empty one that ends it)
+			if r.entersAfterCancel > r.nClaimed+200 && r.IgnoresCancel == "" {
+				r.IgnoresCancel = fmt.Sprintf("the consumer called TryNext %d times after Close cancelled it (%d ring positions were ever claimed) and has not stopped", r.entersAfterCancel, r.nClaimed)
+			}
+		}
+	case "diode.close.cancelled":
+		r.cancelSeen = true
+	case "waiter.next.done", "poller.next.done":
+		r.consumerDone = true
+	case "diode.write.copied":
+		if r.attempts != nil {
+			r.attempts[g] = 0
+		}
 	case "poller.next.empty":
 		r.emptyPolls++
-	case "waiter.cancel.broadcast":
-		atomic.StoreInt32(&r.cancelBcast, 1)
+	}
+	if point == "m2o.set.loaded" || point == "m2o.set.collision" || point == "m2o.set.casfailed" {
+		// every retry inside one Set call is caused by a store or a take of somebody else, and there are at most
+		// P*W of each: a producer far beyond that is spinning, whatever positions it visits
+		if r.attempts == nil {
+			r.attempts = map[int64]int{}
+		}
+		r.attempts[g]++
+		if r.attempts[g] == 1000+3*r.cfg.P*(r.cfg.W+2) && r.ProducerSpin == "" {
+			r.ProducerSpin = fmt.Sprintf("a producer made %d attempts inside one Write without storing its message (last position %d)", r.attempts[g], arg)
+		}
 	}
 	if role == roleConsumer {
 		atomic.StoreInt32(&r.lastConsumer, int32(pt))
@@ -273,7 +315,7 @@ func (r *dRun) at(point string, arg uint64) {
 		case <-wait.release:
 		case <-time.After(wait.Timeout):
 			r.mu.Lock()
-			if !wait.released {
+			if !wait.released && !r.dead {
 				wait.released = true
 				wait.TimedOut = true
 				close(wait.release)
@@ -327,6 +369,7 @@ func idOf(p []byte) string {
 func (w dRecW) Write(p []byte) (int, error) {
 	r := w.r
 	entry := atomic.AddInt64(&r.clk, 1)
+	afterClose := atomic.LoadInt64(&r.wrappedClosed) != 0
 	infl := atomic.AddInt32(&r.inflight, 1)
 	sum := crc32.ChecksumIEEE(p)
 	id := idOf(p)
@@ -351,7 +394,7 @@ func (w dRecW) Write(p []byte) (int, error) {
 	}
 	same := r.sameN
 	if len(r.deliveries) < 20000 {
-		r.deliveries = append(r.deliveries, dDelivery{id, entry, exit, sum, n, changed, infl})
+		r.deliveries = append(r.deliveries, dDelivery{id, entry, exit, sum, n, changed, infl, afterClose})
 	}
 	seq := len(r.deliveries)
 	r.dmu.Unlock()
@@ -378,6 +421,13 @@ func (w dRecW) Write(p []byte) (int, error) {
 		}
 	}
 	return len(p), nil
+}
+
+// Close makes the wrapped writer an io.Closer: diode.Writer.Close closes it after the drain.
+func (w dRecW) Close() error {
+	atomic.CompareAndSwapInt64(&w.r.wrappedClosed, 0, atomic.AddInt64(&w.r.clk, 1))
+	atomic.AddInt32(&w.r.wrappedCloses, 1)
+	return nil
 }
 
 var errWrapped = fmt.Errorf("wrapped writer: broken pipe")
@@ -412,7 +462,18 @@ func (r *dRun) write(prod, i int) {
 	wr.Call = atomic.AddInt64(&r.clk, 1)
 	r.writes = append(r.writes, wr)
 	r.wmu.Unlock()
-	r.dw.Write(p)
+	func() {
+		defer func() {
+			if x := recover(); x != nil {
+				r.wmu.Lock()
+				if r.WritePanic == "" {
+					r.WritePanic = fmt.Sprintf("Write(%s) panicked: %v", wr.ID, x)
+				}
+				r.wmu.Unlock()
+			}
+		}()
+		r.dw.Write(p)
+	}()
 	ret := atomic.AddInt64(&r.clk, 1)
 	r.wmu.Lock()
 	wr.Ret, wr.Returned = ret, true
@@ -434,6 +495,12 @@ func (r *dRun) delivered(id string) bool {
 	return false
 }
 
+// harnessFrame: the goroutine is blocked inside the harness's own instrumentation (a directed pause, the hook's
+// mutex, the recording writer), not inside the code under test.
+func harnessFrame(dump string) bool {
+	return strings.Contains(dump, "(*dRun).at") || strings.Contains(dump, "main.dRecW.Write")
+}
+
 // consumerState inspects the goroutine running diode.Writer.poll.
 func consumerState() (state string, dump string, found bool) {
 	gs := gstate.Snapshot()
@@ -445,31 +512,19 @@ func consumerState() (state string, dump string, found bool) {
 	return "", "", false
 }
 
-// cancelGoroutineSeen: does this Waiter implementation have a cancel goroutine (hook points
-// waiter.cancel.*) at all? Learned from the first run that shows one.
-var hasCancelGoroutine int32 = -1
-
-func cancelGoroutineSeen() bool {
-	if v := atomic.LoadInt32(&hasCancelGoroutine); v >= 0 {
-		return v == 1
-	}
-	for _, g := range gstate.Snapshot() {
-		if g.Has("diodes.NewWaiter.func") {
-			atomic.StoreInt32(&hasCancelGoroutine, 1)
-			return true
-		}
-	}
-	return false
-}
-
-func closerState() (state string, found bool) {
+func closerState() (state string, dump string, found bool) {
 	for _, g := range gstate.Snapshot() {
 		if g.Has("diode.Writer.Close") {
-			return g.State, true
+			return g.State, g.Text, true
 		}
 	}
-	return "", false
+	return "", "", false
 }
+
+// diodeTainted: an earlier run of this process left goroutines behind (a hung Close, a hung producer or
+// consumer). Goroutine-state oracles would look at the wrong goroutines from then on, so the remaining runs of
+// this process are skipped (and counted).
+var diodeTainted bool
 
 // progressDone: the consumer has passed every claimed position.
 func (r *dRun) progressDone() bool {
@@ -479,59 +534,122 @@ func (r *dRun) progressDone() bool {
 }
 
 // awaitQuiescence waits, after all producer calls returned, for either full progress or a stable
-// blocked consumer. The wall-clock limit only yields "inconclusive".
-func (r *dRun) awaitQuiescence(limit time.Duration) {
+// blocked consumer. It returns "" (full progress), "parked", "polling" or "inconclusive" (the wall-clock
+// limit only ever yields "inconclusive").
+func (r *dRun) awaitQuiescence(limit time.Duration) (state, dump string) {
 	deadline := time.Now().Add(limit)
 	lastProgress := time.Now()
 	var lastDelivered int64 = -1
 	var lastRI uint64
 	var pollsAtProgress int64
+	lastTrace := -1
 	for {
 		if r.progressDone() {
-			// one more look: the consumer may still be inside the wrapped writer; that is progress, not a stall
-			r.Quiesced = true
-			return
+			return "", ""
 		}
 		d := atomic.LoadInt64(&r.deliveredN)
 		r.mu.Lock()
-		ri, polls := r.readIndex, r.emptyPolls
+		ri, polls, tl := r.readIndex, r.emptyPolls, len(r.trace)
 		r.mu.Unlock()
 		if d != lastDelivered || ri != lastRI {
 			lastDelivered, lastRI, lastProgress, pollsAtProgress = d, ri, time.Now(), polls
 		}
 		if time.Since(lastProgress) > 2*time.Millisecond {
-			if r.cfg.Poll == 0 {
-				st, dump, found := consumerState()
-				// parked waiting for a wake-up: on a condition variable or (channel-based waiter) in a select /
-				// channel receive inside Waiter.Next; the wrapped writer's own blocking is excluded by frame
-				if found && (st == "sync.Cond.Wait" || ((st == "select" || st == "chan receive") && strings.Contains(dump, "(*Waiter).Next") && !strings.Contains(dump, "(*dRun).at"))) && !r.progressDone() {
-					r.StallState, r.StallDump = "parked", dump
-					return
+			st, dump, found := consumerState()
+			if found && gstate.Parked(st) && !harnessFrame(dump) && !r.progressDone() {
+				// parked waiting for a wake-up. The canonical places (the waiter's condition variable / signal
+				// channel) are stable by construction: a completed Set has readied the reader before it returned.
+				// Anywhere else (a mutex, a semaphore) the state is confirmed by a second look with no hook event
+				// in between.
+				canonical := st == "sync.Cond.Wait" || ((st == "select" || st == "chan receive") && strings.Contains(dump, "(*Waiter).Next"))
+				if canonical || (tl == lastTrace) {
+					return "parked", dump
 				}
-			} else if polls-pollsAtProgress >= 1000 {
-				r.StallState = "polling"
-				return
+				lastTrace = tl
+				time.Sleep(5 * time.Millisecond)
+				continue
+			}
+			if r.cfg.Poll > 0 && polls-pollsAtProgress >= 1000 {
+				return "polling", ""
 			}
 		}
 		if time.Now().After(deadline) {
-			r.StallState = "inconclusive"
-			return
+			return "inconclusive", ""
 		}
 		time.Sleep(100 * time.Microsecond)
+	}
+}
+
+func (r *dRun) settle(limit time.Duration) {
+	st, dump := r.awaitQuiescence(limit)
+	if st == "" {
+		r.Quiesced = true
+		return
+	}
+	r.StallState, r.StallDump = st, dump
+}
+
+// join waits for the producer goroutines; one that cannot return is judged by goroutine state (parked) or by
+// the hook counters (spinning), never by the clock alone.
+func (r *dRun) join(wg *sync.WaitGroup) {
+	done := make(chan struct{})
+	go func() { wg.Wait(); close(done) }()
+	joined := false
+	for waited := 0; waited < 300 && !joined; waited++ {
+		select {
+		case <-done:
+			joined = true
+		case <-time.After(10 * time.Millisecond):
+			r.mu.Lock()
+			spin := r.ProducerSpin
+			r.mu.Unlock()
+			if spin != "" {
+				waited = 300
+			}
+		}
+	}
+	if !joined {
+		diodeTainted = true
+		hung := ""
+		for _, g := range gstate.Snapshot() {
+			if g.Has("main.(*dRun).write") {
+				hung += fmt.Sprintf("[%s] ", g.State)
+				if gstate.Parked(g.State) && !harnessFrame(g.Text) {
+					r.ProducersHung = "parked"
+					r.StallDump = g.Text
+				}
+			}
+		}
+		if r.ProducersHung == "" {
+			r.ProducersHung = "inconclusive:" + hung
+		}
 	}
 }
 
 // runDiode executes one configuration.
 func runDiode(cfg *dCfg, seed *rng.R) *dRun {
 	r := &dRun{cfg: cfg, seed: seed, unblock: make(chan struct{}), maxClaimed: -1}
+	if cfg.Procs > 0 {
+		defer runtime.GOMAXPROCS(runtime.GOMAXPROCS(cfg.Procs))
+	}
 	curRun.Store(r)
 	if !cfg.Hookless {
 		atomic.StoreInt32(&r.live, 1)
 	}
-	r.dw = diode.NewWriter(dRecW{r}, cfg.Size, cfg.Poll, func(missed int) {
-		atomic.AddInt64(&r.alertSum, int64(missed))
-		atomic.AddInt64(&r.alertCalls, 1)
-	})
+	var alerter diode.Alerter
+	if !cfg.NilAlerter {
+		alerter = func(missed int) {
+			atomic.AddInt64(&r.alertSum, int64(missed))
+			k := atomic.AddInt64(&r.alertCalls, 1)
+			if cfg.ReAlerter && k <= 4 {
+				// the alerter runs on the consumer goroutine, inside TryNext: logging through the same diode
+				// must neither block nor deadlock
+				r.prodG.Store(goid(), 90)
+				r.write(90, int(k))
+			}
+		}
+	}
+	r.dw = diode.NewWriter(dRecW{r}, cfg.Size, cfg.Poll, alerter)
 	if cfg.Script != nil {
 		cfg.Script(r)
 	} else {
@@ -552,48 +670,58 @@ func runDiode(cfg *dCfg, seed *rng.R) *dRun {
 						for k := 0; k < 250 && !r.delivered(id); k++ {
 							time.Sleep(20 * time.Microsecond)
 						}
+						if cfg.P == 1 && !cfg.Hookless && !cfg.Block && !r.delivered(id) {
+							// the only producer is waiting and nothing else will happen: this is a quiescent point
+							// in the middle of the run (a later Write must not be needed to get the message out)
+							if st, dump := r.awaitQuiescence(500 * time.Millisecond); st == "parked" || st == "polling" {
+								r.StallState, r.StallDump = st, dump
+								r.MidRunStall = true
+								return
+							}
+						}
 					}
 				}
 			}(p)
 		}
 		close(start)
-		// join producers; a producer that cannot return is judged by goroutine state, not by the clock
-		done := make(chan struct{})
-		go func() { wg.Wait(); close(done) }()
-		joined := false
-		for waited := 0; waited < 300 && !joined; waited++ {
-			select {
-			case <-done:
-				joined = true
-			case <-time.After(10 * time.Millisecond):
-				r.mu.Lock()
-				spin := r.ProducerSpin
-				r.mu.Unlock()
-				if spin != "" {
-					waited = 300
-				}
-			}
-		}
-		if !joined {
-			hung := ""
-			for _, g := range gstate.Snapshot() {
-				if g.Has("main.(*dRun).write") {
-					hung += fmt.Sprintf("[%s] ", g.State)
-					if gstate.Parked(g.State) {
-						r.ProducersHung = "parked"
-						r.StallDump = g.Text
-					}
-				}
-			}
-			if r.ProducersHung == "" {
-				r.ProducersHung = "inconclusive:" + hung
+		r.join(&wg)
+		for _, p := range cfg.Pauses {
+			if p.UntilJoin {
+				p.Release(r)
 			}
 		}
 	}
 	if cfg.Block {
 		close(r.unblock)
-	} else if cfg.Script == nil && !cfg.CloseEarly && r.ProducersHung == "" && !cfg.Hookless {
-		r.awaitQuiescence(3 * time.Second)
+	} else if cfg.Script == nil && !cfg.CloseEarly && r.ProducersHung == "" && !cfg.Hookless && r.StallState == "" {
+		r.settle(3 * time.Second)
+	}
+	if cfg.LateWrites && cfg.Script == nil && r.ProducersHung == "" {
+		// one more Write per producer while Close runs, and one after it returned
+		var wg sync.WaitGroup
+		closing := make(chan struct{})
+		for p := 0; p < cfg.P; p++ {
+			wg.Add(1)
+			go func(p int) {
+				defer wg.Done()
+				r.prodG.Store(goid(), p)
+				<-closing
+				r.write(p, cfg.W)
+			}(p)
+		}
+		close(closing)
+		r.doClose(3 * time.Second)
+		if r.CloseHung == "" {
+			for p := 0; p < cfg.P; p++ {
+				wg.Add(1)
+				go func(p int) {
+					defer wg.Done()
+					r.prodG.Store(goid(), p)
+					r.write(p, cfg.W+1)
+				}(p)
+			}
+		}
+		r.join(&wg)
 	}
 	r.finish()
 	return r
@@ -604,11 +732,8 @@ func (r *dRun) finish() {
 	if atomic.LoadInt64(&r.closeCalled) == 0 {
 		r.doClose(3 * time.Second)
 	}
-	// wait for the waiter's cancel goroutine of this run to have broadcast (it outlives Close)
-	if r.cfg.Poll == 0 && !r.cfg.Hookless && cancelGoroutineSeen() {
-		for i := 0; i < 20000 && atomic.LoadInt32(&r.cancelBcast) == 0; i++ {
-			time.Sleep(50 * time.Microsecond)
-		}
+	if r.CloseHung == "" && r.cfg.CloseTwice == 1 {
+		r.doClose(3 * time.Second)
 	}
 	atomic.StoreInt32(&r.live, 0)
 	r.mu.Lock()
@@ -617,22 +742,40 @@ func (r *dRun) finish() {
 }
 
 func (r *dRun) doClose(limit time.Duration) {
-	atomic.StoreInt64(&r.closeCalled, atomic.AddInt64(&r.clk, 1))
-	done := make(chan struct{})
-	go func() {
-		r.dw.Close()
-		atomic.StoreInt64(&r.closeRet, atomic.AddInt64(&r.clk, 1))
-		close(done)
-	}()
-	select {
-	case <-done:
-	case <-time.After(limit):
-		cs, _, cf := consumerState()
-		ks, kf := closerState()
-		if kf && gstate.Parked(ks) && (!cf || gstate.Parked(cs)) {
-			r.CloseHung = fmt.Sprintf("Close parked in [%s], consumer present=%v state [%s]", ks, cf, cs)
-		} else {
-			r.CloseHung = fmt.Sprintf("inconclusive: Close [%s] consumer [%s]", ks, cs)
+	first := atomic.CompareAndSwapInt64(&r.closeCalled, 0, atomic.AddInt64(&r.clk, 1))
+	n := 1
+	if first && r.cfg.CloseTwice == 2 {
+		n = 2
+	}
+	done := make(chan struct{}, n)
+	for i := 0; i < n; i++ {
+		go func() {
+			r.dw.Close()
+			atomic.CompareAndSwapInt64(&r.closeRet, 0, atomic.AddInt64(&r.clk, 1))
+			atomic.AddInt32(&r.closeRets, 1)
+			done <- struct{}{}
+		}()
+	}
+	timeout := time.After(limit)
+	for i := 0; i < n; i++ {
+		select {
+		case <-done:
+		case <-timeout:
+			diodeTainted = true
+			cs, cdump, cf := consumerState()
+			ks, kdump, kf := closerState()
+			r.mu.Lock()
+			ignores := r.IgnoresCancel
+			r.mu.Unlock()
+			switch {
+			case kf && gstate.Parked(ks) && ignores != "":
+				r.CloseHung = fmt.Sprintf("Close parked in [%s]: %s", ks, ignores)
+			case kf && gstate.Parked(ks) && !harnessFrame(kdump) && (!cf || (gstate.Parked(cs) && !harnessFrame(cdump))):
+				r.CloseHung = fmt.Sprintf("Close parked in [%s] (call %d of %d), consumer present=%v state [%s]", ks, i+1, n, cf, cs)
+			default:
+				r.CloseHung = fmt.Sprintf("inconclusive: Close [%s] consumer [%s]", ks, cs)
+			}
+			return
 		}
 	}
 }
@@ -744,6 +887,7 @@ func (r *dRun) windows() map[string]int {
 	if r.nClaimed > int64(len(r.W())) {
 		w["position_retried"]++
 	}
+	r.mu.Lock()
 	for _, p := range r.cfg.Pauses {
 		if p.entered {
 			w["directed_pause_entered"]++
@@ -752,6 +896,7 @@ func (r *dRun) windows() map[string]int {
 			}
 		}
 	}
+	r.mu.Unlock()
 	return w
 }
 
